@@ -318,6 +318,8 @@ func (w *world) setsFor(p *plan) []sset {
 	}
 	if len(p.quorum) > 1 {
 		out = append(out, sset{"quorum", []string{"Q"}})
+		// one stored Alphabet key repeating its vote as often as the threshold asks for distinct keys: never the required witnesses
+		out = append(out, sset{"repeat", []string{"IR0"}})
 	}
 	return append(out, later...)
 }
@@ -593,6 +595,9 @@ func (w *world) execCell(contract, key string, set sset, fuzz string) string {
 	if set.label == "quorum" {
 		return w.execQuorum(m, p, v)
 	}
+	if set.label == "repeat" {
+		return w.execRepeat(m, p, v)
+	}
 	if strings.HasPrefix(set.label, "catch-") {
 		p.viaCatcher = true
 		if p.args == nil {
@@ -658,6 +663,30 @@ func (w *world) execQuorum(m meth, p *plan, v func(what, detail string)) string 
 	if last.halt && m.name == "innerRingCandidateRemove" && w.isIRCandidate(m.contract, p.args[0].([]byte)) {
 		v("required-witnesses-rejected", fmt.Sprintf("%d votes of distinct stored Alphabet keys (2n/3+1) did not remove the candidate", len(p.quorum)))
 	}
+	return last.String()
+}
+
+// execRepeat: vote mode, negative direction of the threshold: ONE stored Alphabet key sends the same vote as many
+// times as the threshold asks for distinct keys (after every older ballot has expired); the action must not execute.
+func (w *world) execRepeat(m meth, p *plan, v func(what, detail string)) string {
+	for i := 0; i < 22; i++ { // ballots older than 20 blocks are purged by the next vote
+		w.c.AddBlock()
+	}
+	s := p.quorum[len(p.quorum)-1]
+	wasCand := m.name == "innerRingCandidateRemove" && w.isIRCandidate(m.contract, p.args[0].([]byte))
+	var last outcome
+	for i := range p.quorum {
+		last = w.observe(w.buildTx(m, p, []neotest.Signer{s}))
+		if !last.halt {
+			break
+		}
+		if last.ev != 0 || len(last.moved) != 0 || (wasCand && !w.isIRCandidate(m.contract, p.args[0].([]byte))) {
+			v("effect-without-witness", fmt.Sprintf("vote %d of ONE stored Alphabet key repeated (threshold %d distinct keys) executed the action: %s", i+1, len(p.quorum), last.what()))
+			break
+		}
+	}
+	w.run.Count("cell." + m.contract + "." + m.key)
+	w.run.Count("set.repeat")
 	return last.String()
 }
 
